@@ -1,0 +1,156 @@
+//go:build verif
+
+// Contracts for package actor, read by /verif/govc (comment-only file; compiles to nothing).
+// Adapter is an open interface: every call through it is recorded in the ghost call log, and
+// the contracts pin the log ("exactly one legal action, for itself").
+
+package actor
+
+//@ devirt Actions = (*actions)
+//@ devirt Actor = (*actor)
+
+//@ axiom len(actionProbabilities) == 6
+
+// ---- vocabulary ---------------------------------------------------------------------------------
+
+//@ spec hasAct(gs, idx, a) = 0 <= idx && idx < len(gs.Players) && gs.Players[idx] != nil
+//@     && exists(j, 0, len(gs.Players[idx].AllowedActions), gs.Players[idx].AllowedActions[j] == a)
+//@ spec hasPos(gs, idx, p) = 0 <= idx && idx < len(gs.Players) && gs.Players[idx] != nil
+//@     && exists(j, 0, len(gs.Players[idx].Positions), gs.Players[idx].Positions[j] == p)
+//@ spec noCall() = ncalls() == old(ncalls())
+//@ spec n0() = old(ncalls())
+//@ spec oneCall(name, id) = ncalls() == old(ncalls()) + 1 && callfn(old(ncalls())) == name && callarg(old(ncalls()), 0) == id
+//@ spec oneCallAmt(name, id, amt) = oneCall(name, id) && callarg(old(ncalls()), 1) == amt
+
+// a runner's Actions object forwards to the adapter of the runner's actor, under the runner's own id
+//@ spec ActionsWF(acts, actr, id) = ref(acts) != 0 && typeis(acts, "*actor.actions") && acts.playerID == id
+//@     && ref(acts.actor) != 0 && typeis(acts.actor, "*actor.actor") && ref(acts.actor) == ref(actr) && acts.actor.tableAdapter != nil
+
+// shape of a hand state handed to a runner (assumed of the engine / backend: no nil players)
+//@ spec GsShape(gs) = gs != nil && 0 <= len(gs.Players) && forall(k, 0, 10, k < len(gs.Players) ==> gs.Players[k] != nil)
+
+//@ spec evAnte(gs) = gs.Status.CurrentEvent == pokerface.GameEventSymbols[pokerface.GameEvent_AnteRequested]
+//@ spec evBlinds(gs) = gs.Status.CurrentEvent == pokerface.GameEventSymbols[pokerface.GameEvent_BlindsRequested]
+
+// ---- the nine forwarders (C18, C19) -------------------------------------------------------------
+
+//@ func (*actions).Pass
+//@   inline
+//@ func (*actions).Ready
+//@   inline
+//@ func (*actions).Pay
+//@   inline
+//@ func (*actions).Check
+//@   inline
+//@ func (*actions).Bet
+//@   inline
+//@ func (*actions).Call
+//@   inline
+//@ func (*actions).Fold
+//@   inline
+//@ func (*actions).Allin
+//@   inline
+//@ func (*actions).Raise
+//@   inline
+
+// ---- player runner: auto-play for an unresponsive player (C19) ----------------------------------
+
+//@ func (*playerRunner).automate
+//@   property C19
+//@   returns err
+//@   requires pr != nil && gs != nil && ActionsWF(pr.actions, pr.actor, pr.playerID)
+//@   modifies log
+//@   ensures ready-first: hasAct(gs, playerIdx, "ready") ==> oneCall("actor.Adapter.Ready", pr.playerID)
+//@   ensures then-check: !hasAct(gs, playerIdx, "ready") && hasAct(gs, playerIdx, "check") ==> oneCall("actor.Adapter.Check", pr.playerID)
+//@   ensures then-fold: !hasAct(gs, playerIdx, "ready") && !hasAct(gs, playerIdx, "check") && hasAct(gs, playerIdx, "fold") ==> oneCall("actor.Adapter.Fold", pr.playerID)
+//@   ensures mandatory-ante: !hasAct(gs, playerIdx, "ready") && !hasAct(gs, playerIdx, "check") && !hasAct(gs, playerIdx, "fold") && evAnte(gs)
+//@             ==> oneCallAmt("actor.Adapter.Pay", pr.playerID, gs.Meta.Ante)
+//@   ensures mandatory-blind: !hasAct(gs, playerIdx, "ready") && !hasAct(gs, playerIdx, "check") && !hasAct(gs, playerIdx, "fold") && !evAnte(gs) && evBlinds(gs)
+//@             ==> oneCallAmt("actor.Adapter.Pay", pr.playerID, ite(hasPos(gs, playerIdx, "sb"), gs.Meta.Blind.SB, ite(hasPos(gs, playerIdx, "bb"), gs.Meta.Blind.BB, gs.Meta.Blind.Dealer)))
+//@   ensures otherwise-silent: !hasAct(gs, playerIdx, "ready") && !hasAct(gs, playerIdx, "check") && !hasAct(gs, playerIdx, "fold") && !evAnte(gs) && !evBlinds(gs) ==> noCall()
+//@   ensures never-volunteers: ncalls() <= old(ncalls()) + 1 && (ncalls() == old(ncalls()) + 1 ==>
+//@             callfn(old(ncalls())) == "actor.Adapter.Ready" || callfn(old(ncalls())) == "actor.Adapter.Check"
+//@             || callfn(old(ncalls())) == "actor.Adapter.Fold" || callfn(old(ncalls())) == "actor.Adapter.Pay")
+
+//@ func (*playerRunner).requestMove
+//@   property C19
+//@   returns err
+//@   requires pr != nil && gs != nil && pr.tableInfo != nil && ActionsWF(pr.actions, pr.actor, pr.playerID)
+//@   modifies log
+//@   ensures pass-immediately: hasAct(gs, playerIdx, "pass") ==> oneCall("actor.Adapter.Pass", pr.playerID)
+//@   ensures suspended-automates-now: !hasAct(gs, playerIdx, "pass") && pr.status == PlayerStatus_Suspend ==> ncalls() <= old(ncalls()) + 1
+//@             && (ncalls() == old(ncalls()) + 1 ==> callfn(old(ncalls())) == "actor.Adapter.Ready" || callfn(old(ncalls())) == "actor.Adapter.Check"
+//@                  || callfn(old(ncalls())) == "actor.Adapter.Fold" || callfn(old(ncalls())) == "actor.Adapter.Pay")
+//@   ensures otherwise-waits: !hasAct(gs, playerIdx, "pass") && pr.status != PlayerStatus_Suspend
+//@             ==> ncalls() == old(ncalls()) + 1 && callfn(old(ncalls())) == "(*timebank.TimeBank).NewTask"
+//@                 && callarg(old(ncalls()), 0) == pr.tableInfo.Meta.ActionTime * 1000000000
+
+// ---- bot runner (C18) ---------------------------------------------------------------------------
+
+//@ spec AA(gs, idx) = gs.Players[idx].AllowedActions
+//@ spec wager6(a) = a == "fold" || a == "check" || a == "call" || a == "allin" || a == "bet" || a == "raise"
+//@ spec known9(a) = wager6(a) || a == "ready" || a == "pass" || a == "pay"
+// what the engine shows a bot that is asked to act (assumed of engine-produced snapshots):
+// at most nine allowed actions, all with known names; "pay" is only allowed while antes or blinds are collected
+//@ spec AskedOK(gs, idx) = GsShape(gs) && 0 <= idx && idx < len(gs.Players) && idx < 10 && 0 <= len(AA(gs, idx)) && len(AA(gs, idx)) <= 9
+//@     && forall(j, 0, 9, j < len(AA(gs, idx)) ==> known9(AA(gs, idx)[j]))
+//@     && (hasAct(gs, idx, "pay") ==> evAnte(gs) || evBlinds(gs))
+
+//@ func (*botRunner).calcActionProbabilities
+//@   property C18
+//@   returns r
+//@   requires 0 <= len(actions) && len(actions) <= 9
+//@   modifies nothing
+//@   loop 0 unroll 9
+//@   loop 1 unroll 6
+//@   loop 2 unroll 9
+//@   ensures keys-are-arguments: r != nil && fresh(r) && 0 <= len(r) && len(r) <= 9 && all(a, indom(r, a) ==> exists(j, 0, 9, j < len(actions) && actions[j] == a))
+
+//@ func (*botRunner).calcAction
+//@   property C18
+//@   returns r
+//@   requires br != nil && 1 <= len(actions) && len(actions) <= 9
+//@   modifies nothing
+//@   loop 0 unroll 9
+//@   ensures picks-an-argument: exists(j, 0, 9, j < len(actions) && actions[j] == r)
+
+// shape of the table snapshot a runner keeps (assumed of engine-produced snapshots)
+//@ spec InfoOK(t) = t != nil && t.State != nil && t.Meta.ActionTime >= 0
+//@     && forall(j, 0, len(t.State.GamePlayerIndexes), 0 <= t.State.GamePlayerIndexes[j]
+//@           && (t.State.GamePlayerIndexes[j] < len(t.State.PlayerStates) ==> t.State.PlayerStates[t.State.GamePlayerIndexes[j]] != nil))
+//@     && (t.State.GameState != nil ==> GsShape(t.State.GameState) && len(t.State.GameState.Players) <= 10)
+//@ spec act0() = callfn(old(ncalls()))
+//@ spec amt0() = callarg(old(ncalls()), 1)
+// the logged adapter call is the legal realisation of allowed action a in state gs for player p
+//@ spec legalMove(gs, p, a) = (a == "fold" && act0() == "actor.Adapter.Fold") || (a == "check" && act0() == "actor.Adapter.Check")
+//@     || (a == "call" && act0() == "actor.Adapter.Call") || (a == "allin" && act0() == "actor.Adapter.Allin")
+//@     || (a == "bet" && act0() == "actor.Adapter.Bet" && (amt0() == p.InitialStackSize || (gs.Status.MiniBet <= amt0() && amt0() < p.InitialStackSize)))
+//@     || (a == "raise" && act0() == "actor.Adapter.Raise" && (amt0() == p.InitialStackSize
+//@           || (gs.Status.CurrentWager + gs.Status.PreviousRaiseSize <= amt0() && amt0() < p.InitialStackSize)))
+
+//@ func (*botRunner).requestAI
+//@   property C18
+//@   returns err
+//@   requires br != nil && AskedOK(gs, playerIdx) && ActionsWF(br.actions, br.actor, br.playerID) && InfoOK(br.tableInfo)
+//@   requires forall(j, 0, 9, j < len(AA(gs, playerIdx)) ==> wager6(AA(gs, playerIdx)[j]))
+//@   modifies log
+//@   ensures not-asked-silent: len(AA(gs, playerIdx)) == 0 ==> noCall()
+//@   ensures one-own-action: len(AA(gs, playerIdx)) >= 1 ==> ncalls() >= old(ncalls()) + 1 && ncalls() <= old(ncalls()) + 2 && callarg(old(ncalls()), 0) == br.playerID
+//@             && (ncalls() == old(ncalls()) + 2 ==> callfn(old(ncalls()) + 1) == "callback:onTableGameWagerActionUpdated")
+//@   ensures legal: len(AA(gs, playerIdx)) >= 1 ==> exists(j, 0, 9, j < len(AA(gs, playerIdx)) && legalMove(gs, gs.Players[playerIdx], AA(gs, playerIdx)[j]))
+
+//@ func (*botRunner).requestMove
+//@   property C18
+//@   returns err
+//@   requires br != nil && InfoOK(br.tableInfo) && AskedOK(gs, playerIdx) && ActionsWF(br.actions, br.actor, br.playerID) && len(AA(gs, playerIdx)) >= 1
+//@   modifies log
+//@   ensures ready-first: hasAct(gs, playerIdx, "ready") ==> oneCall("actor.Adapter.Ready", br.playerID)
+//@   ensures then-pass: !hasAct(gs, playerIdx, "ready") && hasAct(gs, playerIdx, "pass") ==> oneCall("actor.Adapter.Pass", br.playerID)
+//@   ensures mandatory-ante: !hasAct(gs, playerIdx, "ready") && !hasAct(gs, playerIdx, "pass") && hasAct(gs, playerIdx, "pay") && evAnte(gs)
+//@             ==> oneCallAmt("actor.Adapter.Pay", br.playerID, gs.Meta.Ante)
+//@   ensures mandatory-blind: !hasAct(gs, playerIdx, "ready") && !hasAct(gs, playerIdx, "pass") && hasAct(gs, playerIdx, "pay") && !evAnte(gs) && evBlinds(gs)
+//@             ==> oneCallAmt("actor.Adapter.Pay", br.playerID, ite(hasPos(gs, playerIdx, "sb"), gs.Meta.Blind.SB, ite(hasPos(gs, playerIdx, "bb"), gs.Meta.Blind.BB, gs.Meta.Blind.Dealer)))
+//@   ensures wager-now: !hasAct(gs, playerIdx, "ready") && !hasAct(gs, playerIdx, "pass") && !hasAct(gs, playerIdx, "pay") && (!br.isHumanized || br.tableInfo.Meta.ActionTime == 0)
+//@             ==> ncalls() >= old(ncalls()) + 1 && callarg(old(ncalls()), 0) == br.playerID
+//@                 && exists(j, 0, 9, j < len(AA(gs, playerIdx)) && legalMove(gs, gs.Players[playerIdx], AA(gs, playerIdx)[j]))
+//@   ensures at-most-one-action-or-timer: ncalls() <= old(ncalls()) + 2
